@@ -330,8 +330,10 @@ pub fn gen_v(rng: &mut Rng, depth: usize) -> V {
 
 pub fn gen_universe(rng: &mut Rng) -> Vec<String> {
     let small = rng.chance(1, 2);
-    let n = if small { rng.urange(1, 3) } else { rng.urange(24, 48) };
-    let style = rng.below(4);
+    // one run in forty: a huge universe (the raw table grows to 128..512 buckets)
+    let huge = rng.chance(1, 40);
+    let n = if huge { rng.urange(100, 400) } else if small { rng.urange(1, 3) } else { rng.urange(24, 48) };
+    let style = if huge { rng.below(2) } else { rng.below(4) };
     (0..n).map(|i| match (style, i) {
         (_, 0) if rng.chance(1, 4) => String::new(),
         (0, _) => format!("k{}", i),
@@ -360,9 +362,15 @@ pub fn gen_hist(rng: &mut Rng, max_len: usize) -> HistSc {
     // keep the object growing on average: pushes stay enabled
     w[0] = w[0].max(4);
     w[23] = w[23].min(1); // `fresh` (reset) rarely
-    let len = if rng.chance(1, 10) { rng.urange(1, max_len) } else { rng.urange(1, max_len.min(24)) };
+    let len = if uni.len() >= 100 { rng.urange(1, 16) } else if rng.chance(1, 10) { rng.urange(1, max_len) } else { rng.urange(1, max_len.min(24)) };
     let regs = if rng.chance(1, 2) { 1 } else { REGISTERS };
     let mut ops = Vec::with_capacity(len);
+    if uni.len() >= 100 {
+        // bulk start so that the index is large from the first step
+        let n = rng.urange(uni.len() / 2, uni.len() + 40);
+        let es: Vec<(String, V)> = (0..n).map(|_| (rng.pick(&uni).clone(), if rng.chance(1, 4) { gen_v(rng, 1) } else { V::Null })).collect();
+        ops.push(match rng.below(3) { 0 => Op::FromVec { r: 0, es }, 1 => Op::ExtendEntries { r: 0, es }, _ => Op::FromParse { r: 0, es } });
+    }
     for _ in 0..len {
         let r = rng.usize_below(regs);
         let k = rng.pick(&uni).clone();
@@ -379,7 +387,7 @@ pub fn gen_hist(rng: &mut Rng, max_len: usize) -> HistSc {
             9 => Op::Sort { r },
             10 => Op::FromVec { r, es: gen_entries(rng, &uni, 12) },
             11 => Op::FromIterEntries { r, es: gen_entries(rng, &uni, 8) },
-            12 => if rng.chance(1, 2) { Op::FromIterPairs { r, es: gen_entries(rng, &uni, 8) } } else { Op::FromParse { r, es: gen_entries(rng, &uni, 10) } },
+            12 => Op::FromIterPairs { r, es: gen_entries(rng, &uni, 8) },
             13 => Op::ExtendEntries { r, es: gen_entries(rng, &uni, 8) },
             14 => Op::ExtendPairs { r, es: gen_entries(rng, &uni, 8) },
             15 => Op::ExtendFrom { r, s: rng.usize_below(REGISTERS) },
@@ -390,7 +398,8 @@ pub fn gen_hist(rng: &mut Rng, max_len: usize) -> HistSc {
             20 => Op::GetMutOrInsertWith { r, k, v: gen_v(rng, 0), set: if rng.chance(1, 2) { Some(gen_v(rng, 0)) } else { None } },
             21 => Op::CloneTo { r, dst: rng.usize_below(REGISTERS) },
             22 => Op::IntoIterRebuild { r },
-            _ => Op::Fresh { r },
+            23 => Op::Fresh { r },
+            _ => Op::FromParse { r, es: gen_entries(rng, &uni, 10) },
         };
         ops.push(op);
     }
